@@ -138,14 +138,19 @@ def size (t : Tree R) : Int := t.count
 def all (t : Tree R) : List (Item R) :=
   t.outside ++ (match t.root with | some r => r.all | none => [])
 
+/-- one step of the re-insertion loop of `Reorganize`: a node the new root rectangle contains goes into the tree, any
+    other node (only possible when the union was rounded) goes to the outside list -/
+def reorgStep (rect : R) (threshold fuel : Nat) (s : Node R × List (Item R)) (one : Item R) : Node R × List (Item R) :=
+  if L.contains rect one.rect then (Node.insert threshold fuel s.1 one, s.2) else (s.1, s.2 ++ [one])
+
 /-- `QuadTree.Reorganize` -/
 def reorganize (fuel : Nat) (t : Tree R) : Tree R :=
   let all := t.all
   let rect := all.foldl (fun r one => L.union r one.rect) L.zero
   if all.isEmpty then { t with root := none, outside := [] }
   else
-    { t with root := some (all.foldl (fun n one => Node.insert t.thr fuel n one) (Node.leaf rect [])),
-             outside := [], nodeThr := t.thr }
+    let st := all.foldl (reorgStep rect t.thr fuel) (Node.leaf rect [], [])
+    { t with root := some st.1, outside := st.2, nodeThr := t.thr }
 
 /-- `QuadTree.Insert` -/
 def insert (fuel : Nat) (t : Tree R) (it : Item R) : Tree R :=
